@@ -37,8 +37,10 @@ LEVEL_NOTE = ("Trusted: Lean kernel + {propext, Classical.choice, Quot.sound}; t
               "code is differential (sees the generated scopes: K <= 3 keys, B in {1,2,4}, dims <= 2, polynomial "
               "user functions); jax.vmap / jax AD / equinox tree_at are modelled (List.map over the batch axis with an "
               "in-axes tree), not verified.  Derivative routing is covered as far as values go (stop_gradient is the "
-              "identity on values; the masks are applied to the already overridden parameters in the model as in the "
-              "code); gradients themselves are C06's subject.  Not covered: the non-stationary normalisation term "
+              "identity on values); for the dynamic term the gradient itself is checked: jax.grad with respect to the "
+              "rows of the batch and to the caller's parameters, under random derivative keys, equals the model's "
+              "routed per-sample tangents exactly (JAX AD enters as a tangent oracle: the harness' exact polynomial "
+              "derivative); other terms' gradients are C06's subject.  Not covered: the non-stationary normalisation term "
               "together with a parameter batch (nested vmaps over the same parameter axis; the code does not support "
               "it), SPINN / HYPERPINN networks, non-power-of-two batch sizes (kept out so that float64 means are "
               "exact).")
@@ -65,6 +67,10 @@ THEOREMS = [
     "Jinns.Holds.evalSingle_spec",
     "Jinns.Holds.holdsC12_model",
     "Jinns.Holds.evalSingle_accepts",
+    "Jinns.Holds.dynGradRow_spec",
+    "Jinns.Holds.dynGradCaller_spec",
+    "Jinns.Holds.specGrad_masked",
+    "Jinns.Holds.specGradCaller_batched",
     "Jinns.Holds.sysDyn_spec",
     "Jinns.Holds.consSum_spec",
     "Jinns.Holds.sysEvaluate_spec",
@@ -161,7 +167,8 @@ def build(case):
     keys = case["keys"]
     K = len(keys)
     B = case["B"]
-    pr = {"kind": kind, "base": base, "issys": issys, "d": d, "din": din, "m": m, "K": K, "B": B}
+    pr = {"kind": kind, "base": base, "issys": issys, "d": d, "din": din, "m": m, "K": K, "B": B,
+          "routing": case.get("routing")}
 
     # caller's parameters, readers
     params, readers = [], {}
@@ -389,6 +396,17 @@ def exact_ok(pr):
                 deg = max(deg, sum(ex))
             if bound * bound * (4 ** deg) * 16 >= 2 ** 52:
                 return False
+            if pr.get("routing"):
+                for j in range(K):
+                    dc = c.d(din + j)
+                    db = Fraction(0)
+                    for ex, co in dc.c.items():
+                        t = abs(co)
+                        for x, kk in zip(maxv, ex):
+                            t *= x ** kk
+                        db += t
+                    if 2 * bound * db * 2 * (4 ** deg) * 16 >= 2 ** 52:
+                        return False
     return True
 
 
@@ -736,6 +754,14 @@ def make_world(case, pr=None):
         dyn = make_eq(e) if pr["residuals"][e] is not None else None
         w = {k: fl(v) for k, v in pr["weights"].items()}
         kw = cons_kwargs("u")
+        if case.get("routing"):
+            # derivative keys of the dynamic term: nn_params and the equation parameters selected by the mask
+            from jinns.parameters._derivative_keys import (DerivativeKeysODE, DerivativeKeysPDENonStatio,
+                                                           DerivativeKeysPDEStatio)
+            DK = {"ode": DerivativeKeysODE, "statio": DerivativeKeysPDEStatio,
+                  "nonstatio": DerivativeKeysPDENonStatio}[base]
+            mask = Params(nn_params=True, eq_params={k: bool(case["routing"].get(k, False)) for k in eqp})
+            kw["derivative_keys"] = DK(dyn_loss=mask, params=params)
         if base == "ode":
             loss = LossODE(u=nets["u"], dynamic_loss=dyn, loss_weights=LossWeightsODE(**w), params=params, **kw)
         elif base == "statio":
@@ -813,7 +839,7 @@ def _key_sets(rng, tier):
     shapes = ["()", "(1,)", "(k,)"]
     out = []
     for K in (1, 2, 3):
-        reps = 2 if tier == "quick" else 6
+        reps = 2 if tier == "quick" else 14
         for _ in range(reps):
             ks = []
             for name in KEY_POOL[:K]:
@@ -864,6 +890,9 @@ def gen_cases(rng, tier):
                         het["zz"] = "fn"
                 c = dict(kind=kind, d=rng.choice([1, 2]), m=rng.choice([1, 2]), keys=keys, batched=sub, B=B,
                          obs=obs, het=het, terms=terms, malformed=None)
+                if het is None and not kind.startswith("sys_") and rng.random() < 0.6:
+                    # derivative routing of the dynamic term: a random mask over the equation parameters
+                    c["routing"] = {n: rng.random() < 0.6 for n in names}
                 if base != "ode" and terms["boundary"] and sub:
                     c["d"] = rng.choice([1, 2])
                 if kind.startswith("sys_"):
@@ -893,6 +922,8 @@ def _shrink(case):
     c = dict(case)
     if case.get("het"):
         yield {**c, "het": None}
+    if case.get("routing"):
+        yield {k: v for k, v in c.items() if k != "routing"}
     if case.get("obs"):
         yield {**c, "obs": None}
     for t in ("boundary", "norm", "ic"):
@@ -919,6 +950,8 @@ def _shrink(case):
                 cc["obs"] = {**cc["obs"], "eq_keys": [n for n in cc["obs"]["eq_keys"] if n in names]}
             if cc.get("het"):
                 cc["het"] = {n: v for n, v in cc["het"].items() if n in names or n == "zz"}
+            if cc.get("routing"):
+                cc["routing"] = {n: v for n, v in cc["routing"].items() if n in names}
             yield cc
 
 
@@ -938,6 +971,8 @@ def run_impl(case):
     else:
         loss = world["loss"]
     obs = {"observed": outcome_of(lambda: loss.evaluate(world["params"], world["batch"]))}
+    if case.get("routing") and "terms" in obs["observed"]:
+        obs["grads"] = routing_grads(case, world, loss)
     if case.get("batched") and not case.get("malformed"):
         obs["perturbed"] = outcome_of(lambda: loss.evaluate(world["params_alt"], world["batch"]))
     else:
@@ -945,8 +980,50 @@ def run_impl(case):
     return obs
 
 
+def routing_grads(case, world, loss):
+    """jax.grad of the dynamic term with respect to the caller's equation parameters and to the rows of the
+    parameter batch (the batch is rebuilt with the real append_param_batch inside the differentiated function)"""
+    import dataclasses
+    import jax
+    from harness import core
+    from jinns.data._DataGenerators import append_param_batch
+    from jinns.parameters._params import Params
+
+    params, batch = world["params"], world["batch"]
+    rows0 = batch.param_batch_dict
+    fields = {f.name: getattr(batch, f.name) for f in dataclasses.fields(batch)}
+    fields["param_batch_dict"] = None
+    bare = type(batch)(**fields)
+
+    def dyn_of(eqp, rows):
+        p = Params(nn_params=params.nn_params, eq_params=eqp)
+        b = bare if rows0 is None else append_param_batch(bare, rows)
+        return loss.evaluate(p, b)[1]["dyn_loss"]
+
+    g_eqp, g_rows = jax.grad(dyn_of, argnums=(0, 1))(params.eq_params, rows0 if rows0 is not None else {})
+    import numpy as np
+    return {"caller": [[k, [core.qstr(x) for x in np.atleast_1d(np.asarray(v)).ravel()]] for k, v in g_eqp.items()],
+            "rows": [[k, [[core.qstr(x) for x in r] for r in np.asarray(v)]] for k, v in g_rows.items()]}
+
+
 def lean_request(case, obs):
     pr = build(case)
+    main = _main_request(case, obs, pr)
+    if "grads" not in obs:
+        return main
+    comp = residual_fn(pr, "e")
+    din = pr["din"]
+    names = [k for k, _ in pr["params"]]
+    sj = single_json(pr, "u", pr["weights"], True, rows_json(pr["param_rows"]))
+    routing = {"op": "c12routing", "params": main["params"], "readers": main["readers"],
+               "param_rows": rows_json(pr["param_rows"]) or [], "dyn": sj["dyn"],
+               "mask": [[k, bool(case["routing"].get(k, False))] for k in names],
+               "dfs": [[k, [c.d(din + j).to_json() for c in comp]] for j, k in enumerate(names)],
+               "grads": obs["grads"]}
+    return [main, routing]
+
+
+def _main_request(case, obs, pr):
     req = {"params": params_json(pr["params"]), "readers": readers_json(pr),
            "observed": {k: v for k, v in obs["observed"].items() if k != "msg"},
            "perturbed": None if obs["perturbed"] is None else {k: v for k, v in obs["perturbed"].items() if k != "msg"}}
@@ -960,6 +1037,18 @@ def lean_request(case, obs):
 
 
 def judge(case, obs, a):
+    if isinstance(a, list):
+        v = judge(case, obs, a[0])
+        if v["status"] != "ok":
+            return v
+        r = a[1]
+        if not r["holds"]:
+            return {"status": "violation", "clause": r["clause"], "model_rows": r["model_rows"],
+                    "model_caller": r["model_caller"]}
+        if not r["agree"]:
+            return {"status": "disagree", "clause": "model-gradients-differ", "model_rows": r["model_rows"],
+                    "model_caller": r["model_caller"]}
+        return v
     if not a["holds"]:
         return {"status": "violation", "clause": a["clause"], "model": a["model"]}
     if not a["agree"]:
@@ -991,6 +1080,8 @@ def tags(case, obs):
             out.append("heterogeneity_key_absent_from_params")
     if case.get("malformed"):
         out.append(f"malformed={case['malformed']}")
+    if "grads" in obs:
+        out.append("derivative_routing")
     o = obs["observed"]
     out.append("impl=" + ("error:" + o["error"] if "error" in o else "value"))
     for t, on in case["terms"].items():
